@@ -24,6 +24,8 @@
 //	crash             an operation ended in a runtime fault
 //	entry-mutated     an entry handed out by GetEntry changed its Value() while the reader held it
 //	disagree          a lookup answered a value that is not the (write-once) binding of any loader on its chain
+//	discover-not-sandwiched   a discovery missed a name the chain bound before it began, or answered a name the chain does
+//	                  not bind when it ends (C13_discover_sandwich; holds also for the runs of the known finding)
 //	not-linearizable  no sequential order of the same operations (respecting each thread's program order), run against
 //	                  the C12 reference map, explains all answers and the final bindings;
 //	                  `not-linearizable-ancestor-gains` when every unexplainable answer is a load/discover through a
@@ -286,11 +288,12 @@ func run(parent []int, forked []bool, ths []*thread, schedule []int) core.Result
 	sort.Strings(sortedKeys)
 
 	mutated := ""
+	unsandwiched := ""
 	loaderSites := func(site string) bool {
 		return site == "op" || site == "get.hold" || site == "parented.loadentry" || site == "load.miss-window" || site == "parented.discover"
 	}
 	outs, sites, preempted := runThreads(len(ths), loaderSites, func(t int) int { return len(ths[t].steps) },
-		func(t, i int) string { return execStep(w, ths[t], ths[t].steps[i], keys, &mutated) }, schedule)
+		func(t, i int) string { return execStep(w, ths[t], ths[t].steps[i], keys, &mutated, &unsandwiched) }, schedule)
 	for t, th := range ths {
 		th.outs = outs[t]
 	}
@@ -369,6 +372,9 @@ func run(parent []int, forked []bool, ths []*thread, schedule []int) core.Result
 	if mutated != "" {
 		return fail("entry-mutated", mutated)
 	}
+	if unsandwiched != "" {
+		return fail("discover-not-sandwiched", unsandwiched)
+	}
 	for t, th := range ths {
 		for i, o := range th.outs {
 			st := th.steps[i]
@@ -399,7 +405,7 @@ func run(parent []int, forked []bool, ths []*thread, schedule []int) core.Result
 }
 
 // execStep runs one step on the calling goroutine (a controlled thread) and renders its answer as C12 does.
-func execStep(w *c12.World, th *thread, s c12.Step, keys map[string]bool, mutated *string) string {
+func execStep(w *c12.World, th *thread, s c12.Step, keys map[string]bool, mutated, unsandwiched *string) string {
 	l := w.Loader(s.Loader())
 	ctx := th.ctxs[s.Loader()]
 	switch s.Op() {
@@ -452,12 +458,38 @@ func execStep(w *c12.World, th *thread, s c12.Step, keys map[string]bool, mutate
 	case "disc":
 		var found []px.TypedName
 		pred := func(tn px.TypedName) bool { return keys[tn.MapKey()] && c12.KeyPred(s.PredName(), tn.MapKey()) }
+		// what the chain binds right now (HasEntry has no yield point: the other controlled goroutines are parked, so this
+		// is the state at the beginning — and, below, at the end — of the discovery)
+		boundNow := func() map[string]bool {
+			m := map[string]bool{}
+			quietly(func() {
+				for k := range keys {
+					tn := px.TypedNameFromMapKey(k)
+					if pred(tn) && l.HasEntry(tn) {
+						m[k] = true
+					}
+				}
+			})
+			return m
+		}
+		before := boundNow()
 		if r := c12.Safely(func() { found = l.Discover(ctx, pred) }); r != "" {
 			return r
 		}
+		after := boundNow()
 		ks := make([]string, len(found))
+		got := map[string]bool{}
 		for i, tn := range found {
 			ks[i] = sx.Str(tn.MapKey()).String()
+			got[tn.MapKey()] = true
+			if !after[tn.MapKey()] && *unsandwiched == "" {
+				*unsandwiched = fmt.Sprintf("a discovery through loader %d answered %s, which no loader of the chain binds when the discovery ends", s.Loader(), sx.Str(tn.MapKey()))
+			}
+		}
+		for k := range before {
+			if !got[k] && *unsandwiched == "" {
+				*unsandwiched = fmt.Sprintf("a discovery through loader %d did not answer %s, which the chain bound before the discovery began", s.Loader(), sx.Str(k))
+			}
 		}
 		return "[" + strings.Join(ks, " ") + "]"
 	}
